@@ -182,6 +182,11 @@ def run(tier):
                 v.violation("C03:nonterm:%s:%s:%s" % (SITE_NAMES.get(site, "?"), op.split(" ")[0], cls),
                             "call exceeded its tick budget (does not terminate or is super-linear): %s" % op[:200],
                             {"script": c.setup + c.ops[: i + 1], "fault": c.fault.get("detail", ""), "table_text": c.meta.get("text", "")})
+            elif c.fault["kind"].startswith("exit:"):
+                # the library ended the process (exit(3) of _lou_outOfMemory, F40): the call does not return
+                v.violation("C03:noreturn:%s:%s" % (c.fault["kind"], op.split(" ")[0]),
+                            "the call ended the process (%s) instead of returning: %s" % (c.fault["kind"], op[:200]),
+                            {"script": c.setup + c.ops[: i + 1], "stderr_tail": c.fault.get("stderr_tail", "")[-600:], "table_text": c.meta.get("text", "")})
             else:
                 v.notes.append("memory fault during C03 run (decided by C01/C02): %s %s" % (c.fault["kind"], c.fault["frame"]))
         for op, o in zip(c.ops, c.out):
